@@ -24,25 +24,19 @@ type zzSess struct {
 // one interval while active ones are kept, an expired ID gets a fresh socket,
 // every socket is closed exactly once and nothing is left running at the end.
 //
-//verif:harness kind=api replay=native+sched unwind=400 preempt=0 bound=events<=4(quick)/5(thorough),2-session-ids,timeout=10s,sweep=1s
+//verif:harness kind=api replay=native+sched unwind=400 preempt=0 bound=events<=4,2-session-ids,timeout=10s,sweep=1s
 func ZZ_C07_SessionLifecycle() {
-	steps := 4
-	if verifThorough() {
-		steps = 5
-	}
-	zzSessionLifecycle(steps)
+	// five events do not finish within the thorough budget (769k paths explored in 15 min, truncated): four in both tiers
+	zzSessionLifecycle(4)
 }
 
 // The same histories, shorter, with one pre-emption at any synchronisation
 // point of the receive loop, reply loops, sweeper and the driving thread.
 //
-//verif:harness kind=api replay=native+sched unwind=400 preempt=1 sched=all bound=all-wake-up-orders,datagram-or-first-fragment,[one-free-event(thorough)],datagram-racing-the-sweeper;one-preemption
+//verif:harness kind=api replay=native+sched unwind=400 preempt=1 sched=all bound=all-wake-up-orders,datagram-or-first-fragment,datagram-racing-the-sweeper;one-preemption
 func ZZ_C07_SessionLifecyclePreempt() {
-	steps := 2
-	if verifThorough() {
-		steps = 3
-	}
-	zzSessionLifecycleEx(steps, true)
+	// a free third event with every wake-up order does not finish within the thorough budget (3.1M paths, truncated)
+	zzSessionLifecycleEx(2, true)
 }
 
 func zzSessionLifecycle(steps int) { zzSessionLifecycleEx(steps, false) }
